@@ -232,7 +232,7 @@ def candidates(rng, objs, dead, opaque, factors=()):
             if d >= 2 and all(c == 1 for c in t.col_dims):
                 idx = rng.randint(1, d - 1)
                 out.append(dict(op='Svd', a=a, index=idx, ow=rng.random() < 0.3))
-                if np.any(P.contract(t.cores) != 0):
+                if mx[i] > 0.5:      # not the zero tensor (integer values; after a sweep an exact zero is rounding noise)
                     out.append(dict(op='Pinv', a=a, index=idx, ow=rng.random() < 0.2))
             if d >= 1:
                 nums = []
